@@ -21,6 +21,8 @@ INVARIANT NoMirror
 PROPERTY FailAtomic
 PROPERTY SetterSimilar
 PROPERTY BadTargetRefused
+PROPERTY NearSetterSimilar
+PROPERTY BadCentreAtomic
 PROPERTY QueryPure
 VIEW ViewSt
 CHECK_DEADLOCK FALSE
@@ -333,7 +335,7 @@ def apply_op(obj, ret, unit=1.0):
     try:
         with warnings.catch_warnings():
             warnings.simplefilter("ignore")
-            if op == "set":
+            if op in ("set", "setnear"):
                 p, lam = args[0], F(args[1][0], args[1][1])
                 cur = getattr(obj, p)
                 target = float(cur) * float(lam) ** DEG.get(p, 1)
@@ -358,6 +360,9 @@ def apply_op(obj, ret, unit=1.0):
                 else:
                     info["target"] = np.array(TARGETS[args[0]]) * unit      # in the units of the base shape
                 setattr(obj, args[1], info["target"].copy())
+            elif op == "centroidbad":
+                bad_value = {"short": [1.5, -2.5], "long": (1.0, 2.0, 3.0, 4.0), "none": [None, 0.0, 1.0], "matrix": np.ones((2, 3))}[args[0]]
+                setattr(obj, args[1], bad_value)
             elif op == "radius":
                 obj.radius = float(obj.radius) * float(F(args[0][0], args[0][1]))
             elif op == "coreset":
@@ -444,6 +449,12 @@ def run_history(job):
             before_cen = None
         exc, info = apply_op(obj, ret, spec.get("scale", 1.0))
         want = ret["exc"]
+        if ret["op"] == "centroidbad":
+            # a malformed centre: the specification allows refusal (with any exception, state untouched) or acceptance; what the
+            # implementation does not get is a refusal that has already moved the shape
+            if exc == "none":
+                return out                  # accepted: the rest of the history is not defined by the specification
+            want = exc
         if exc != want:
             if want == "none":
                 bad(ret["op"] + ("." + str(ret["args"][0]) if ret["args"] else ""), f"raised {exc}, the specification expects the call to succeed", step, tags=["unexpected_exception"])
@@ -460,7 +471,7 @@ def run_history(job):
                 bad("fail_atomic", f"the call raised {exc} but changed the stored state of the shape", step,
                     tags=["fail_atomic"])
                 return out
-        elif ret["op"] == "set":
+        elif ret["op"] in ("set", "setnear"):
             lam = F(ret["args"][1][0], ret["args"][1][1])
             scale *= lam
             expect = before_vertices * float(lam)
